@@ -1,0 +1,19 @@
+//go:build verif
+
+package caldav
+
+import "time"
+
+// Composition harnesses for the deductive verifier in /verif (govc); see
+// internal/verif_harness.go. Nothing here is compiled without the verif tag.
+
+func verifDateWithUTCTimeRoundTrip(t time.Time) (time.Time, error) {
+	in := dateWithUTCTime(t)
+	b, err := in.MarshalText()
+	if err != nil {
+		return time.Time{}, err
+	}
+	var out dateWithUTCTime
+	err = out.UnmarshalText(b)
+	return time.Time(out), err
+}
